@@ -1,13 +1,13 @@
 #!/usr/bin/env python3
 """tools/seedkeep.py <name> <property> <outdir> <m> <verify-result> <caught-by-json>
-Stores a confirmed seeded change under seeded/<name>/ (patch.diff, demo_test.go, meta.json)."""
+Stores a confirmed seeded change under seeded/<name>/ (patch.diff, demo_test.go.txt, meta.json)."""
 import json, os, shutil, subprocess, sys
 name, prop, outdir, m, verify, caught = sys.argv[1:7]
 root = os.path.dirname(os.path.dirname(os.path.abspath(__file__)))
 d = os.path.join(root, "seeded", name)
 os.makedirs(d, exist_ok=True)
 shutil.copy(os.path.join(outdir, m + ".diff"), os.path.join(d, "patch.diff"))
-shutil.copy(os.path.join(outdir, m + "_demo_test.go"), os.path.join(d, "demo_test.go"))
+shutil.copy(os.path.join(outdir, m + "_demo_test.go"), os.path.join(d, "demo_test.go.txt"))
 md = open(os.path.join(outdir, m + ".md")).read()
 head = subprocess.check_output(["git", "-C", "/repo", "log", "--format=%h", "-1"]).decode().strip()
 meta = {
